@@ -735,7 +735,7 @@ func execC09(x *Ctx, sc *wire.Scenario) *wire.Result {
 	variants := map[string]bool{xx.Typed: true} // legitimate in-progress texts
 	var lastInProg *sim.Snap
 	var inProgSnaps []*sim.Snap
-	edited := map[int]string{}     // entries (by distance from the newest) edited while shown, and what they show now
+	edited := map[int]string{}      // entries (by distance from the newest) edited while shown, and what they show now
 	entryEdits := map[string]bool{} // every text such an edit left
 	isNav := func(cmd string) (walk, search bool) {
 		for _, w := range walkCmds {
